@@ -1,7 +1,7 @@
 SPECIFICATION Spec
 CONSTANTS
   Variant = "fixed"
-  Urls = {"h1/a", "h1/b", "h2/c", "h2/d"}
+  Urls = {"h1/d/a", "h1/d/b", "h2/c", "h2/c?p=2"}
   Budgets = {0, 1, 2, 3}
   Caps = {1, 2, 3}
   MaxFetches = 5
